@@ -137,28 +137,68 @@ theorem csr8_stride_mismatch (paging aw page idx : Nat) (pre post : List Bank) (
       · exact ⟨h0, by omega⟩
     · rintro ⟨rfl, rfl⟩; simp
 
-/-- **mem_window.**  A CSR memory (width ≤ bus word, depth ≤ a page) is exported only by its window base
-    `csr_base + paging·page`; word `i` of the memory answers at `base + 4·i` (32-bit CSR bus). -/
-theorem mem_window (paging aw page depth i : Nat) (h4 : paging % 4 = 0)
-    (hi : i < depth) (hdepth : depth ≤ paging / 4) (hloc : page < nLocs 32 aw paging) :
-    memSel paging page depth (bridgeAdr 32 aw (paging * page + 4 * i)) = some i := by
+/-- **mem_window.**  A CSR memory (width ≤ bus word) that fits one page — including one that fills it exactly — has
+    no page register, and word `i` of the memory answers at `base + 4·i` of the exported window
+    `csr_base + paging·page` for every `i < depth`, whatever a page value would be (32-bit CSR bus). -/
+theorem mem_window (paging aw page depth pv i k : Nat) (h4 : paging % 4 = 0)
+    (hk : paging / 4 = 2 ^ k) (hk0 : 0 < k) (hi : i < depth) (hdepth : depth ≤ paging / 4) (hloc : page < nLocs 32 aw paging) :
+    sramPageBits paging depth = 0 ∧
+    sramSel paging page depth pv (bridgeAdr 32 aw (paging * page + 4 * i)) = some i := by
   rw [nLocs_32 aw paging h4] at hloc
   have hlt : i < paging / 4 := by omega
-  rw [bridgeAdr_32 aw paging page i h4 hlt hloc]
   have hP : 0 < paging / 4 := by omega
+  have hpb : sramPageBits paging depth = 0 := by
+    unfold sramPageBits sramPages clog2
+    have : (depth + paging / 4 - 1) / (paging / 4) ≤ 1 := by
+      apply Nat.le_of_lt_succ
+      rw [Nat.div_lt_iff_lt_mul hP]; omega
+    simp [this]
+  refine ⟨hpb, ?_⟩
+  rw [bridgeAdr_32 aw paging page i h4 hlt hloc]
   have h1 : (page * (paging / 4) + i) / (paging / 4) = page := by
     rw [Nat.mul_comm, Nat.mul_add_div hP, Nat.div_eq_of_lt hlt, Nat.add_zero]
-  have h2 : (page * (paging / 4) + i) % (paging / 4) = i := by
-    rw [Nat.mul_comm, Nat.mul_add_mod, Nat.mod_eq_of_lt hlt]
-  unfold memSel
-  rw [h1, h2, if_pos rfl]
-  congr 1
-  apply Nat.mod_eq_of_lt
-  have : depth - 1 < 2 ^ (Nat.log2 (depth - 1) + 1) := Nat.lt_log2_self
-  omega
+  unfold sramSel
+  rw [h1, if_pos rfl, hpb]
+  simp only [Nat.sub_zero, Nat.pow_zero, Nat.mod_one, Nat.zero_mul, Nat.add_zero, Option.some.injEq]
+  have hd : depth - 1 < 2 ^ bitsFor (depth - 1) := Nat.lt_log2_self
+  have hab : bitsFor (depth - 1) ≤ k := by
+    unfold bitsFor
+    by_cases h0 : depth - 1 = 0
+    · rw [h0]; simp [Nat.log2_zero]; omega
+    · have : (depth - 1).log2 < k := (Nat.log2_lt h0).2 (by rw [← hk]; omega)
+      omega
+  have hsplit : 2 ^ k = 2 ^ bitsFor (depth - 1) * 2 ^ (k - bitsFor (depth - 1)) := by
+    rw [← Nat.pow_add]; congr 1; omega
+  rw [hk, hsplit, ← Nat.mul_assoc, Nat.mul_comm page, Nat.mul_assoc, Nat.mul_add_mod]
+  exact Nat.mod_eq_of_lt (by omega)
 
-/-- Non-vacuity of `mem_window`: 33-word memory at page 1, last word. -/
-example : memSel 0x800 1 33 (bridgeAdr 32 14 (0x800 * 1 + 4 * 32)) = some 32 := by decide
+/-- **mem_window_paged.**  A CSR memory deeper than a page is reached through its `<mem>_page` register: with the
+    register holding `w / (paging/4)`, word `w` answers at `base + 4·(w mod paging/4)`.  Hypothesis `hwin`: the
+    window the hardware cuts out (`2^(len(port.adr) - page_bits)` words) is one page — decidable, and true for every
+    depth the correspondence grid builds (see the examples). -/
+theorem mem_window_paged (paging aw page depth w : Nat) (h4 : paging % 4 = 0)
+    (hwin : 2 ^ (bitsFor (depth - 1) - sramPageBits paging depth) = paging / 4)
+    (hpv : w / (paging / 4) < 2 ^ sramPageBits paging depth) (hloc : page < nLocs 32 aw paging) :
+    sramSel paging page depth (w / (paging / 4)) (bridgeAdr 32 aw (paging * page + 4 * (w % (paging / 4)))) = some w := by
+  rw [nLocs_32 aw paging h4] at hloc
+  have hP : 0 < paging / 4 := by rw [← hwin]; exact Nat.two_pow_pos _
+  have hlt : w % (paging / 4) < paging / 4 := Nat.mod_lt _ hP
+  rw [bridgeAdr_32 aw paging page _ h4 hlt hloc]
+  have h1 : (page * (paging / 4) + w % (paging / 4)) / (paging / 4) = page := by
+    rw [Nat.mul_comm, Nat.mul_add_div hP, Nat.div_eq_of_lt hlt, Nat.add_zero]
+  unfold sramSel
+  rw [h1, if_pos rfl]
+  simp only [hwin, Option.some.injEq]
+  rw [Nat.mod_eq_of_lt hpv, Nat.mul_comm page, Nat.mul_add_mod, Nat.mod_mod, Nat.mul_comm]
+  exact Nat.mod_add_div w (paging / 4)
+
+/-- Non-vacuity: a 256-word memory exactly filling a 0x400 page (last word, no page register); paged memories of
+    300, 512 and 768 words at paging 0x400 satisfy `hwin`, and word 300 of the 768-word one is page 1, offset 44. -/
+example : 0x400 / 4 = 2 ^ 8 ∧ sramPageBits 0x400 256 = 0 ∧ sramSel 0x400 1 256 0 (bridgeAdr 32 14 (0x400 * 1 + 4 * 255)) = some 255 ∧
+    2 ^ (bitsFor (300 - 1) - sramPageBits 0x400 300) = 0x400 / 4 ∧
+    2 ^ (bitsFor (512 - 1) - sramPageBits 0x400 512) = 0x400 / 4 ∧
+    2 ^ (bitsFor (768 - 1) - sramPageBits 0x400 768) = 0x400 / 4 ∧
+    sramSel 0x400 2 768 (300 / 256) (bridgeAdr 32 14 (0x400 * 2 + 4 * (300 % 256))) = some 300 := by decide
 
 /-! ## Generated accessors (big ordering) -/
 
